@@ -6,8 +6,9 @@ HERE = os.path.dirname(os.path.abspath(__file__))
 VERIF = os.path.dirname(HERE)
 mp = sys.argv[1] if len(sys.argv) > 1 else os.path.join(VERIF, "seeded", "MATRIX.json")
 M = json.load(open(mp))
-print("| seed | change (start of the agent's summary) | rules of its own check that fire | other checks that fire |")
-print("|---|---|---|---|")
+OWN = all(set(v.get("fired", {})) <= {k[:3]} for k, v in M.items())
+print("| seed | change (start of the agent's summary) | rules of its own check that fire |" + ("" if OWN else " other checks that fire |"))
+print("|---|---|---|" + ("" if OWN else "---|"))
 own = other_only = missed = 0
 for sd in sorted(M):
     ent = M[sd]
@@ -22,6 +23,6 @@ for sd in sorted(M):
         other_only += 1
     else:
         missed += 1
-    print("| %s | %s | %s | %s |" % (sd, summ, ", ".join(mine) or "**none**", others or "—"))
+    print("| %s | %s | %s |" % (sd, summ, ", ".join(mine) or "**none**") + ("" if OWN else " %s |" % (others or "—")))
 print()
 print("%d seeds: %d reported by the check of their own property, %d only by another check, %d missed." % (len(M), own, other_only, missed))
